@@ -27,8 +27,8 @@ func lineTexts(r *Rendered) []string {
 // text or separating a directive from its body / opening parenthesis.
 func eligibleBetween(r *Rendered, i int) bool {
 	l := r.Lines[i]
-	if l.Kind == LBody || l.Kind == LText {
-		return false
+	if l.Kind == LBody || l.Kind == LText || l.Kind == LTrivia {
+		return false // (a fixture's own comment line may sit inside a block comment)
 	}
 	if l.Kind == LParen && strings.TrimSpace(r.Text[l.Begin:l.End]) == "(" {
 		return false
